@@ -79,7 +79,7 @@ def main(c):
             if tag == 'A' or c.tier == 'thorough':
                 shards.append(['enum', c.seed, 1, w, kd])
             c2 = vlib.Check('C05', 'exploration', ['--tier', c.tier])   # scratch collector: the driver's own C01 verdicts are not C05's
-            vlib.run_shards(c2, exe, shards, env={'MALLOC_PERTURB_': perturb}, cpu_limit=3000)
+            vlib.run_shards(c2, exe, shards, env={'MALLOC_PERTURB_': perturb, 'CQV_NOISE': '2' if tag == 'A' else '5'}, cpu_limit=3000)
             for m in c2.inconclusive:
                 c.fail_harness('writer run %s: %s' % (tag, m))
             runs[tag] = shards
@@ -125,7 +125,7 @@ def main(c):
             valgrind_sample(c, base)
     finally:
         shutil.rmtree(base, ignore_errors=True)
-    c.rule = ('tables of the C01 generator are written by a plain (-O2) build twice in separate processes under MALLOC_PERTURB_=85/170 and compared byte for byte; every file is then '
+    c.rule = ('tables of the C01 generator are written by a plain (-O2) build twice in separate processes under MALLOC_PERTURB_=85/170, with the stale stack filled with two different patterns before every write and, in the second run, an unrelated table written before every case (different process history), and compared byte for byte; every file is then '
               'parsed by ref/parquet_ref.py (strict: magic, footer length, required Thrift fields, chunk tiling of [4, footer), page chaining, value/row counts, encodings list, codec, '
               'IEEE CRC-32 of stored page bytes, uncompressed sizes, offsets) and the decoded table compared with the model dump. distinct = sha1 of file bytes, rows > 0')
     c.assumptions = ['total_uncompressed_size / total_byte_size accepted as sum of page payloads or payloads+headers', 'codec id 5 accepted as raw LZ4 block or Hadoop framing',
